@@ -8,15 +8,14 @@
    none); every position's base code denotes exactly the intersection of the templates of its
    equality class with the complements of the templates of its complementary class
    (C04_template_clause); the strand layout obeys its formula.
-   The auxiliary nodes are faithful (C04_seeded_graph_denotes, strand layout): two declared nodes -
-   in particular two strand positions - are connected in the seeded graph, with a parity, exactly
+   The auxiliary nodes are faithful (C04_seeded_graph_denotes, both layouts): two declared nodes -
+   in particular two strand positions, or two positions of structures - are connected in the seeded graph, with a parity, exactly
    when their canonical nucleotides (kap: the flattening of strands and super-sequences down to
    offsets of the declared sequences, with orientation) are connected with the corresponding parity
    by the document's equal statements and target base pairs alone; hence
    C04_same_rep_iff_document_forces.  Its hypotheses same_graph / spec_okb / dgraph_ok are
    booleans the extracted model evaluates for every generated case.
-   NOT proved in Coq: the same statement for the structure-oriented layout (decided per case by the
-   denotation-level oracle of the correspondence check). *)
+   The denotation-level oracle of the correspondence check decides the same statement independently. *)
 From Coq Require Import List String Ascii Arith.
 From PC Require Import Base.Codes Comp.Syntax Comp.Compile Design.Propagate Design.PropagateProofs Design.Designer Design.DesignerProofs Design.TemplateProofs
   Design.Contraction Design.DGraph Design.DenoteGraph Design.DenoteTie Design.DenoteSat.
@@ -82,20 +81,21 @@ Theorem C04_seeded_total : forall p so lay g, seed p so = OK (lay, g) -> graph_o
 Proof. exact seeded_total. Qed.
 Print Assumptions C04_seeded_total.
 
-(* the auxiliary nodes are faithful: connectivity in the seeded graph is connectivity of canonical
-   nucleotides under the document's equal statements and base pairs (Rc_links) *)
-Theorem C04_seeded_graph_denotes : forall (p : pspec) (lay : layout) (g : cgraph),
-  spec_okb p = true -> dgraph_ok p lay = true -> same_graph p lay g = true ->
-  forall x q y, In x (nodes p) -> In y (nodes p) ->
+(* the auxiliary nodes are faithful, in either layout (so = structure-oriented): connectivity in the
+   seeded graph is connectivity of canonical nucleotides under the document's equal statements and
+   base pairs (Rc_links) *)
+Theorem C04_seeded_graph_denotes : forall (p : pspec) (lay : layout) (so : bool) (g : cgraph),
+  spec_okb p so = true -> dgraph_ok p lay so = true -> same_graph p lay so g = true ->
+  forall x q y, In x (nodes p so) -> In y (nodes p so) ->
   (gconn g (enc p lay x) q (enc p lay y) <->
-   pconn dnode (Rc_links p) (fst (kap p x)) (xorb q (xorb (snd (kap p x)) (snd (kap p y)))) (fst (kap p y))).
+   pconn dnode (Rc_links p so) (fst (kap p so x)) (xorb q (xorb (snd (kap p so x)) (snd (kap p so y)))) (fst (kap p so y))).
 Proof. exact seeded_graph_denotes. Qed.
 Print Assumptions C04_seeded_graph_denotes.
 
 (* nothing outside the declared nodes is ever connected to a declared node *)
-Theorem C04_connected_nodes_declared : forall (p : pspec) (lay : layout) (g : cgraph),
-  dgraph_ok p lay = true -> same_graph p lay g = true ->
-  forall x q n, In x (nodes p) -> gconn g (enc p lay x) q n -> exists y, In y (nodes p) /\ n = enc p lay y.
+Theorem C04_connected_nodes_declared : forall (p : pspec) (lay : layout) (so : bool) (g : cgraph),
+  dgraph_ok p lay so = true -> same_graph p lay so g = true ->
+  forall x q n, In x (nodes p so) -> gconn g (enc p lay x) q n -> exists y, In y (nodes p so) /\ n = enc p lay y.
 Proof. exact gconn_declared. Qed.
 Print Assumptions C04_connected_nodes_declared.
 
@@ -108,9 +108,10 @@ Theorem C04_contraction : forall (node : Type) (canon : node -> node * bool) (S 
 Proof. exact contraction. Qed.
 Print Assumptions C04_contraction.
 
-(* the hypotheses hold of a concrete document with a super-sequence, a reversed item, an equal statement and a duplex *)
-Theorem C04_denotation_nonvacuous : exists lay g, seed demo_spec false = OK (lay, g) /\ graph_ok g = true /\
-  spec_okb demo_spec = true /\ dgraph_ok demo_spec lay = true /\ same_graph demo_spec lay g = true /\
-  exists e w s, get_constraints demo_spec false = DOk e w s.
+(* the hypotheses hold, in both layouts, of a concrete document with a super-sequence, a reversed item,
+   an equal statement, a duplex and a structure in which a strand occurs twice *)
+Theorem C04_denotation_nonvacuous : forall so, exists lay g, seed demo_spec so = OK (lay, g) /\ graph_ok g = true /\
+  spec_okb demo_spec so = true /\ dgraph_ok demo_spec lay so = true /\ same_graph demo_spec lay so g = true /\
+  exists e w s, get_constraints demo_spec so = DOk e w s.
 Proof. exact demo_hypotheses. Qed.
 Print Assumptions C04_denotation_nonvacuous.
